@@ -77,6 +77,7 @@ let parse_op (t : string list) : pop =
   | ["lit"; id; h; p; s] -> Op (OLit (nat_of_tok id, handle_of_tok h, okey_of_tok p, okey_of_tok s))
   | ["lnext"; id; n] -> Op (OLNext (nat_of_tok id, nat_of_tok n))
   | ["lrel"; id] -> Op (OLRel (nat_of_tok id))
+  | ["init"; d] -> Op (OInit (nat_of_tok d))
   | ["reopen"] -> Skip      (* close the engine and reopen the same directory: the map persists *)
   | _ -> failwith ("bad op: " ^ String.concat " " t)
 
